@@ -350,3 +350,20 @@ Theorem read_steps_regenerated :
 Proof.
   split; [reflexivity|]. intros version H. change RD_VERSION_MASK with (Z.ones 16). rewrite Z.land_ones by lia. reflexivity.
 Qed.
+
+(* each typed reader looks its stream up under the stream type the model's decode_dump uses for it *)
+Definition DOC_READERS : list (string * Z) :=
+  [("MinidumpThreadNames", ST_ThreadNamesStream); ("MinidumpModuleList", ST_ModuleListStream);
+   ("MinidumpUnloadedModuleList", ST_UnloadedModuleListStream); ("MinidumpHandleDataStream", ST_HandleDataStream);
+   ("MinidumpMemoryList", ST_MemoryListStream); ("MinidumpMemory64List", ST_Memory64ListStream);
+   ("MinidumpMemoryInfoList", ST_MemoryInfoListStream); ("MinidumpLinuxMaps", ST_LinuxMaps);
+   ("MinidumpThreadList", ST_ThreadListStream); ("MinidumpThreadInfoList", ST_ThreadInfoListStream);
+   ("MinidumpSystemInfo", ST_SystemInfoStream); ("MinidumpMiscInfo", ST_MiscInfoStream);
+   ("MinidumpMacCrashInfo", ST_MozMacosCrashInfoStream); ("MinidumpMacBootargs", ST_MozMacosBootargsStream);
+   ("MinidumpLinuxLsbRelease", ST_LinuxLsbRelease); ("MinidumpLinuxEnviron", ST_LinuxEnviron);
+   ("MinidumpLinuxProcStatus", ST_LinuxProcStatus); ("MinidumpLinuxProcLimits", ST_MozLinuxLimits);
+   ("MinidumpSoftErrors", ST_MozSoftErrors); ("MinidumpLinuxCpuInfo", ST_LinuxCpuInfo);
+   ("MinidumpBreakpadInfo", ST_BreakpadInfoStream); ("MinidumpException", ST_ExceptionStream);
+   ("MinidumpAssertion", ST_AssertionInfoStream); ("MinidumpCrashpadInfo", ST_CrashpadInfoStream)]%string.
+Theorem reader_stream_types : RD_IMPLEMENTED = DOC_READERS.
+Proof. reflexivity. Qed.
